@@ -43,6 +43,9 @@ pub struct ConnectCase {
     pub will_retain: bool,
     /// connect twice (second CONNECT must ask to resume)
     pub second: bool,
+    /// client_id / keepalive_interval / session_expiry_interval are each called twice, first with a decoy value
+    #[serde(default)]
+    pub decoys: bool,
 }
 
 fn connect_spec(c: &ConnectCase) -> Spec {
@@ -50,6 +53,7 @@ fn connect_spec(c: &ConnectCase) -> Spec {
     s.id = "c".repeat(c.id_len);
     s.keepalive = c.keepalive;
     s.expiry = c.expiry;
+    s.decoys = c.decoys;
     s.auth = match c.auth {
         0 => None,
         1 => Some(("user".into(), b"pw".to_vec())),
@@ -183,7 +187,7 @@ pub fn eval_connect(c: &ConnectCase) -> CaseOut {
 
 fn connect_cases(tier: Tier) -> Vec<ConnectCase> {
     let mut v = Vec::new();
-    let base = ConnectCase { rx: 64, tx: 256, id_len: 3, keepalive: 60, expiry: 100, auth: 0, will: 0, will_qos: 0, will_retain: false, second: false };
+    let base = ConnectCase { rx: 64, tx: 256, id_len: 3, keepalive: 60, expiry: 100, auth: 0, will: 0, will_qos: 0, will_retain: false, second: false, decoys: false };
     // every keep-alive value
     for ka in 0..=65535u16 {
         if tier == Tier::Quick && ka > 300 && ka % 251 != 0 && ka < 65000 {
@@ -206,6 +210,16 @@ fn connect_cases(tier: Tier) -> Vec<ConnectCase> {
                             }
                         }
                     }
+                }
+            }
+        }
+    }
+    // each replaceable setter called twice: the last call counts
+    for id_len in [0usize, 1, 23, 50, 64] {
+        for (keepalive, expiry) in [(0u16, 0u32), (60, 100), (65535, 0xFFFF_FFFF)] {
+            for auth in [0u8, 2] {
+                for second in [false, true] {
+                    v.push(ConnectCase { id_len, keepalive, expiry, auth, second, decoys: true, ..base.clone() });
                 }
             }
         }
